@@ -222,7 +222,7 @@ def HistCountsNotCumulative (P : Params) (n : Str) (samples : List OSample) : Pr
 /-- a sample of family `n` that is not a bucket line and belongs to the group `g` at timestamp `t`
 (`_count`, `_sum`, `_gcount`, `_gsum`, `_created`) -/
 def InHistGroup (n : Str) (g : Labels) (t : Option OTs) (s : OSample) : Prop :=
-  s.name ≠ n ++ cs!"_bucket" ∧ s.ts = t ∧ (∃ l, histGroupOf n s = some l ∧ sortByKey l = sortByKey g) ∧
+  s.name.drop n.length ≠ cs!"_bucket" ∧ s.ts = t ∧ (∃ l, histGroupOf n s = some l ∧ sortByKey l = sortByKey g) ∧
     (s.name.drop n.length = cs!"_gsum" → ∃ v, s.value = some v)
 
 /-- the group is over: the list ends, or a sample (with a suffix) of another group or timestamp follows -/
